@@ -421,6 +421,14 @@ func TestMaxRestartsFamily(t *testing.T) {
 }
 
 func init() {
+	vh.RegisterReplay("TestMaxRestartsFamilyEnum", func(raw json.RawMessage) error {
+		var c FCase
+		if err := json.Unmarshal(raw, &c); err != nil {
+			return err
+		}
+		_, err := runFamily(c)
+		return err
+	})
 	vh.RegisterReplay("TestMaxRestartsFamily", func(raw json.RawMessage) error {
 		var c FCase
 		if err := json.Unmarshal(raw, &c); err != nil {
@@ -429,4 +437,51 @@ func init() {
 		_, err := runFamily(c)
 		return err
 	})
+}
+
+// Complete enumeration of the small families: parent budget 0..2 (last panic in a message or in
+// Started) x one or two children x child budget 0..2 x 0..budget+1 panicking messages x busy or not
+// x the three pauses.  The second child, when present, is an idle one with budget 0.
+func TestMaxRestartsFamilyEnum(t *testing.T) {
+	st := vh.Test("TestMaxRestartsFamilyEnum")
+	n := 0
+	for budget := 0; budget <= 2; budget++ {
+		for _, inStart := range []bool{false, true} {
+			if inStart && budget == 0 {
+				continue
+			}
+			for kb := 0; kb <= 2; kb++ {
+				for crashes := 0; crashes <= kb+1; crashes++ {
+					for _, busy := range []bool{false, true} {
+						for hold := 0; hold <= 2; hold++ {
+							for _, second := range []bool{false, true} {
+								c := FCase{Budget: budget, InStart: inStart, Hold: hold,
+									Kids: []FKid{{Budget: kb, Busy: busy, Crashes: crashes, Queue: 2}}}
+								if second {
+									c.Kids = append(c.Kids, FKid{})
+								}
+								st.Begin(c)
+								feat, err := runFamily(c)
+								if errors.Is(err, errFamInconclusive) || (err != nil && strings.HasPrefix(err.Error(), "harness: ")) {
+									t.Fatalf("harness: %+v: %v", c, err)
+								}
+								if err != nil {
+									st.Fail(c, err)
+									t.Fatalf("%+v: %v", c, err)
+								}
+								var labels []string
+								for l := range feat {
+									labels = append(labels, l)
+								}
+								st.Done(c, feat["busy-child"] > 0, labels...)
+								n++
+							}
+						}
+					}
+				}
+			}
+		}
+	}
+	st.Set("exhaustive", true)
+	st.Set("exhaustive_space", fmt.Sprintf("parent MaxRestarts 0..2 x last panic in a message / in Started x child MaxRestarts 0..2 x 0..budget+1 panicking messages x busy or idle x 3 pauses x with / without an idle sibling = %d cases", n))
 }
